@@ -532,6 +532,11 @@ CHECKS = {
             "max_paths": {"quick": 60000, "thorough": 400000},
             "covers": {"VerifC07ReadDuringWrite": ["put", "put-all", "delete", "merge", "read-during-write"]},
         }, {
+            "pkg": DOC, "funcs": ["VerifC07Overlap"],
+            "params": {"quick": {"P": 1}, "thorough": {"P": 1}},
+            "max_paths": {"quick": 60000, "thorough": 600000},
+            "covers": {"VerifC07Overlap": ["load-overlaps-merge", "write-overlaps-merge", "overlapped"]},
+        }, {
             "pkg": DOC, "funcs": ["VerifC01Docs"],
             "params": {"quick": {"STEPS": 2}, "thorough": {"STEPS": 2}},
             "max_paths": {"quick": 60000, "thorough": 600000},
@@ -540,6 +545,7 @@ CHECKS = {
         "assumptions": [
             "listing of N operations (PUT / DEL / PUTALL of two documents) with symbolic printable-ASCII keys without spaces, symbolic 1-byte document bodies; earlier index state from an arbitrary sub-listing",
             "Get/Query explored over index states made of M single PUTs (they are functions of the index state only)",
+            "two index updates at once (VerifC07Overlap): the merge of a remote put / delete of document k overlaps the Load of the restarted replica or a local put, every schedule with at most P preemptions; at quiescence the documents equal the replay of the held log (detects the index snapshot race fixed in a87e428: 40 of 4562 schedules on the tree before the fix)",
             "public API histories (VerifC01Docs, also run under C01): two writers, STEPS steps of Put / PutAll (two documents, keys from a two-key alphabet so one key may occur twice, symbolic bodies) / PutBatch / Delete / head exchange; after every step the documents equal the replay of the held log, and the operation a PutAll wrote has one member per distinct key of the batch carrying the LAST document given for it, whatever the store held before",
             "reads during writes (VerifC07ReadDuringWrite): a reader (Query of everything, then Get) is started at ANY visible operation of a Put / PutAll / Delete or of the merge of a remote batch on a real store; after the write returned and the store is quiet, Query (asked twice) and Get return exactly the documents of the replayed log",
             "strings.ToLower/Contains/ReplaceAll replaced by byte-loop equivalents (ASCII-exact)",
